@@ -52,6 +52,20 @@ func (s *AccessSigner) prepareData(label string, req *bfe_basic.Request) ([]byte
 
 	// label
 	buildKeyValue(&buf, "label", label)
+	// socket ip
+	if s.UseSocketIP {
+		if req.RemoteAddr == nil {
+			return nil, errors.New("request without socket ip")
+		}
+		buildKeyValue(&buf, "socketIP", req.RemoteAddr.IP.String())
+	}
+	// connect id
+	if s.UseConnectID {
+		if req.Session == nil || len(req.Session.SessionId) == 0 {
+			return nil, errors.New("request without connect id")
+		}
+		buildKeyValue(&buf, "connectID", req.Session.SessionId)
+	}
 	// client ip
 	if s.UseClientIP {
 		if req.ClientAddr == nil {
